@@ -14,14 +14,35 @@ import uuid
 
 import framework as fw
 import heapcommon as hc
-from c03 import HeapCheck
+from c03 import HeapCheck, GenX, run_history_x, X_OPS
 
-CANON = re.compile(r"^[0-9a-f]{8}-[0-9a-f]{4}-[0-9a-f]{4}-[0-9a-f]{4}-[0-9a-f]{12}$")
+# \Z, not $: "$" also matches before a line feed at the end, and "<canonical text>\n" is not canonical
+CANON = re.compile(r"\A[0-9a-f]{8}-[0-9a-f]{4}-[0-9a-f]{4}-[0-9a-f]{4}-[0-9a-f]{12}\Z")
+
+
+def modelled(s):
+    """Texts the Lean model of uuid.UUID is asked about. The model follows CPython's int(): an
+    ASCII-only text keeps the separators 0x1c-0x1f (they are white space for str.strip() but not for
+    the C parser), a text with a non-ASCII character has all str.isspace() characters skipped. The
+    harness translates decimal digits of other scripts to ASCII before it asks (hc.model_text), which
+    can turn a non-ASCII text into an ASCII one: the few texts that hold a separator AND a non-ASCII
+    character are therefore judged by the oracle only."""
+    return not (any(0x1c <= ord(c) <= 0x1f for c in s) and not s.isascii())
+
+
+def valid_uuid(oid):
+    """str(uuid.UUID(oid)) or None; anything that is not a text is not a valid id."""
+    if not isinstance(oid, str):
+        return None
+    try:
+        return str(uuid.UUID(oid))
+    except ValueError:
+        return None
 
 
 def uuid_strings(rng, n):
     out = []
-    alpha = "0123456789abcdefABCDEFg-{}_+ x:urnid\t"
+    alpha = u"0123456789abcdefABCDEFg-{}_+ x:urnid\t\n\r\x0b\x0c\x00\x85\xa0\u2028\u3000\ufeff\u0663\u096b\uff11\xb2\uff41"
     for i in range(n):
         base = str(uuid.UUID(int=rng.getrandbits(128)))
         out.append(hc.mangle_id(rng, base) or "")
@@ -33,6 +54,14 @@ def uuid_strings(rng, n):
             for _ in range(rng.randrange(1, 3)):
                 s[rng.randrange(len(s))] = rng.choice(alpha)
             out.append("".join(s))
+    one = "1" * 31
+    out += [one + "\n", "\n" + one, one + "\r", one + "\x0b", one + "\x0c", one + u"\x85", one + u"\xa0",
+            u"\u2028" + one, one + u"\u3000", one + u"\ufeff", one + "\x00", "1" * 32 + "\n", "\n" + "1" * 32,
+            "1" * 32 + "\r\n", u"\u0661" * 32, u"\uff11" * 32, one + u"\u0967", "0x" + u"\u0661" * 30,
+            u"\u0661_" * 16, "-" + u"\u0660" * 31, one + u"\xb2", one + u"\uff41", one + u"\u2167",
+            "{urn:uuid:" + "1" * 32 + "}", "urn:uuid:{" + "1" * 32 + "}", "}" + "1" * 32 + "{",
+            "urn:urn:" + "1" * 32, "URN:UUID:" + "1" * 32, "1" * 32 + "urn:", "uuid:" * 3 + "1" * 32,
+            "ur" + "urn:" + "n:" + "1" * 32, "-1" * 32, "1-" * 32, "{-}" + "1" * 32]
     out += ["", "0" * 32, "f" * 32, "F" * 32, "-" + "0" * 31, "+" + "0" * 31, "0x" + "1" * 30,
             "0X" + "a" * 30, "0x_" + "1" * 29, "_" + "1" * 31, "1" * 31 + "_", "1_" * 16,
             " " + "1" * 31, "1" * 31 + " ", "urn:uuid:" + "1" * 32, "{" + "1" * 32 + "}",
@@ -60,11 +89,18 @@ class C04(HeapCheck):
     assumptions = [
         "uuid4 freshness: the text of a fresh id is taken from the implementation and only checked "
         "to be canonical",
-        "int(hex, 16) is modelled for ASCII input (CPython also accepts other Unicode decimal digits)",
+        "int(hex, 16) is modelled for ASCII digits; decimal digits of other scripts, which CPython also "
+        "accepts, are translated to ASCII by the harness before the model is asked (heapcommon.model_text); "
+        "texts holding both an ASCII separator 0x1c-0x1f and a non-ASCII character are judged by the oracle "
+        "only (the digit translation could change which white-space rule of int() applies)",
     ]
-    rule = ("editing histories as in C03 (names from {a,b,c,ab,''}, ids in 20 spellings) plus a "
-            "differential stream of UUID texts (valid spellings, near misses, random strings over a "
-            "hostile alphabet). Non-trivial = a history with >= 5 ops of >= 3 kinds, or a UUID text "
+    rule = ("editing histories as in C03 (names from {a,b,c,ab,''} and other texts incl. id texts of live "
+            "objects, ids in ~75 spellings or copied from live objects, twins / deep-equal copies, oracle-only "
+            "histories with names and ids that are not texts and documents loaded from text), oracle-only "
+            "histories with clone(keep_id) + re-attach + cleared names, plus a "
+            "differential stream of UUID texts (valid spellings, near misses, decorated canonical texts, "
+            "random strings over a hostile alphabet incl. line feeds, control characters, non-ASCII white "
+            "space and digits). Non-trivial = a history with >= 5 ops of >= 3 kinds, or a UUID text "
             "of length >= 30; distinct = distinct canonical JSON.")
 
     def generate(self, tier, rng):
@@ -73,9 +109,18 @@ class C04(HeapCheck):
         strings = uuid_strings(random.Random(rng.randrange(1 << 60)), n)
         for i in range(0, len(strings), 50):
             cases.append({"uuid": strings[i:i + 50]})
+        nx = 400 if tier == "quick" else 3000
+        for _ in range(nx):
+            cases.append({"xops": GenX(random.Random(rng.randrange(1 << 60))).history()})
         return cases
 
     def impl(self, case):
+        if "xops" in case:
+            # clone (+ re-attach beside the original, names cleared or changed, ids copied), merge,
+            # link, clean: executed as in C03 (which holds the model tie for them); here only the
+            # oracle looks at the names and ids of every object after every operation
+            trace, done, skipped = run_history_x(case["xops"])
+            return {"x": True, "trace": trace, "done": done, "skipped": skipped}
         if "uuid" not in case:
             return HeapCheck.impl(self, case)
         out = []
@@ -88,49 +133,54 @@ class C04(HeapCheck):
 
     def model_requests(self, case, obs):
         if "uuid" in case:
-            return [{"op": "uuid", "s": s} for s in case["uuid"] if s.isascii()]
+            return [{"op": "uuid", "s": hc.model_text(s)} for s in case["uuid"] if modelled(s)]
+        if "xops" in case:
+            return []
         return HeapCheck.model_requests(self, case, obs)
 
     def compare(self, case, obs, answers):
         if "uuid" in case:
             out = []
-            asc = [(s, o) for s, o in zip(case["uuid"], obs["uuid"]) if s.isascii()]
+            asc = [(s, o) for s, o in zip(case["uuid"], obs["uuid"]) if modelled(s)]
             for (s, o), a in zip(asc, answers):
                 if o != a:
                     out.append("uuid.UUID(%r): CPython %r, model %r" % (s, o, a))
             return out[:5]
+        if "xops" in case:
+            return []
         return HeapCheck.compare(self, case, obs, answers)
 
     def tag(self, case, obs):
         if "uuid" in case:
             return ("uuid", True)
+        if "xops" in case:
+            kinds = sorted(set(op["op"] for op in obs.get("done", []) if op["op"] in X_OPS))
+            return ("x:" + "+".join(kinds), len(kinds) >= 1)
         return HeapCheck.tag(self, case, obs)
 
     def oracle(self, case, obs):
         if "harness_exception" in obs or "uuid" in case:
             return []
         out = []
+        lost = {"kind": "sec", "name": "#lost", "id": None, "parent": None, "secs": [], "props": []}
         for k, step in enumerate(obs["trace"]):
             op = obs["done"][k]
-            fails = [f for f in hc.wf_failures(step["snap"]) if "duplicate" in f or "empty name" in f]
-            for o in step["snap"]:
-                if not CANON.match(o["id"] or ""):
+            # (an object the extended executor lost while it was being built cannot be observed)
+            snap = [lost if o is None else o for o in step["snap"]]
+            fails = [f for f in hc.wf_failures(snap) if "duplicate" in f or "empty name" in f]
+            for o in snap:
+                if o is not lost and not (isinstance(o["id"], str) and CANON.match(o["id"])):
                     fails.append("id %r is not a canonical UUID string" % (o["id"],))
             if op["op"] == "construct" and step["out"] == "ok" and op.get("oid"):
                 new = step["snap"][-1]["id"]
-                try:
-                    want = str(uuid.UUID(op["oid"]))
-                except ValueError:
-                    want = None
+                oid = hc.decode(op["oid"])
+                want = valid_uuid(oid)
                 if want is not None and new != want:
                     fails.append("valid id %r given at creation became %r" % (op["oid"], new))
-                if want is None and new == op["oid"]:
+                if want is None and new == oid:
                     fails.append("malformed id %r kept at creation" % (op["oid"],))
             if op["op"] == "new_id" and op.get("oid") is not None:
-                try:
-                    want = str(uuid.UUID(op["oid"]))
-                except ValueError:
-                    want = None
+                want = valid_uuid(hc.decode(op["oid"]))
                 before = obs["trace"][k - 1]["snap"][op["x"]]["id"] if k else None
                 now = step["snap"][op["x"]]["id"]
                 if want is None and (step["out"] == "ok" or now != before):
@@ -138,7 +188,9 @@ class C04(HeapCheck):
                                  % (op["oid"], step["out"], before, now))
                 if want is not None and (step["out"] != "ok" or now != want):
                     fails.append("new_id(%r): %s, id is %r, expected %r" % (op["oid"], step["out"], now, want))
-            if op["op"] == "rename" and step["out"] == "ok" and not op["new"]:
+            if op["op"] == "rename" and step["out"] == "ok" and hc.decode(op["new"]) in (None, ""):
+                # (weaker reading: only None and '' count as "cleared"; 0, 0.0, False given as a
+                # name are treated like them by the library, which is not demanded here)
                 o = step["snap"][op["x"]]
                 if o["name"] != o["id"]:
                     fails.append("cleared name did not fall back to the id: %r" % (o["name"],))
